@@ -42,7 +42,7 @@ struct SlipHarness : Harness {
     std::vector<std::string> probes(const std::string &) const override {
         return {"garbage_ends_in_esc", "garbage_without_delimiter", "garbage_esc_followed_by_end", "sof_first_frame_lost", "empty_frame_sof", "empty_frame_classic",
                 "sink_error_on_escaped_octet", "encoder_source_error", "encoder_sink_error", "decoder_source_error", "decoder_sink_error", "illegal_sequence_reported",
-                "resynchronised_after_garbage", "concatenated_frames", "worst_case_length_reached", "source_error_between_frames_then_retry", "encode_while_decoder_is_inside_a_frame", "context_from_static_initialiser", "second_link_worked_during_a_sink_call", "sink_answered_not_now_during_encode"};
+                "resynchronised_after_garbage", "concatenated_frames", "worst_case_length_reached", "source_error_between_frames_then_retry", "encode_while_decoder_is_inside_a_frame", "context_from_static_initialiser", "second_link_worked_during_a_sink_call", "second_link_worked_during_a_source_call", "sink_answered_not_now_during_encode"};
     }
     uint64_t runs(const std::string &, const Tier &t) const override { return t.thorough() ? 30000000 : 2500000; }
 
@@ -179,7 +179,9 @@ struct SlipHarness : Harness {
     struct Dec {
         Ctx &c; SimSource src; SimSink snk; Source source; Sink sink; RFC1055Context ctx;
         SlipIntruder intr{nullptr, 0};
-        void arm(const Json &plan) { if (!plan.has("intrude")) return; intr.c = &c; intr.arg = plan.get("intrude").ati(1, 0) & 0xffffff; snk.intrude_at = plan.get("intrude").ati(0, 0) & 15; snk.intruder = second_link_job; snk.intruder_arg = &intr; }
+        void arm(const Json &plan) { if (!plan.has("intrude")) return; intr.c = &c; intr.arg = plan.get("intrude").ati(1, 0) & 0xffffff;
+            if (intr.arg & 0x400) { src.intrude_at = plan.get("intrude").ati(0, 0) & 15; src.intruder = second_link_job; src.intruder_arg = &intr; COUNT("probe.second_link_worked_during_a_source_call"); }   // while the decoder waits in its source
+            else { snk.intrude_at = plan.get("intrude").ati(0, 0) & 15; snk.intruder = second_link_job; snk.intruder_arg = &intr; } }
         Dec(Ctx &cc, bool sof, bool so, bool ko, const Bytes &line) : c(cc) {
             src.c = &cc; snk.c = &cc; src.octet_kind = so; snk.octet_kind = ko; src.data = line;
             src.bind(&source); snk.bind(&sink);
